@@ -1653,8 +1653,11 @@ func (c *compiler) VisitTernaryExpr(e *ast.TernaryExpr) ast.VisitResult {
 		c.cbb.NewBr(leaveBlock)
 		falseBlock = c.cbb
 
-		// simple case, where both can be treated the same way
-		if lhsIsTemp == rhsIsTemp {
+		if lhsTyp.IsPrimitive() {
+			// primitives are never temporaries, the flags may be left over from an operand or an earlier expression
+			c.latestIsTemp = false
+		} else if lhsIsTemp == rhsIsTemp {
+			// simple case, where both can be treated the same way
 			c.latestIsTemp = lhsIsTemp
 		} else {
 			c.latestIsTemp = true
